@@ -180,6 +180,15 @@ class Impl(object):
                                           [edge(ts), edge(te)], is_sorted=(sf != sorted(sf) or _tick() % 2 == 0))
             if k == 4 and sf == sorted(sf):
                 return self.ps.SpikeTrain(arr(s), [edge(ts), edge(te)], is_sorted=False)
+            if k == 1:
+                ro = arr(s)
+                ro.setflags(write=False)              # a read-only array: the constructor must copy, never write
+                return self.ps.SpikeTrain(ro, (edge(ts), edge(te)))
+            if k == 3:
+                return self.ps.SpikeTrain(tuple(sf), [edge(ts), edge(te)])
+            if k == 5 and all(float(np.float32(v)) == v for v in sf):
+                # a float32 array whose values are exact in float32: the library works in float64 all the same
+                return self.ps.SpikeTrain(np.array(sf, dtype=np.float32), [edge(ts), edge(te)])
         return self.ps.SpikeTrain(arr(s), [edge(ts), edge(te)])
 
     def trains(self, l):
@@ -203,8 +212,15 @@ class Impl(object):
         L = self.trains(l)
         if ix is None and TYPES and not EXACT and _tick() % 4 == 1:
             return f(*L, **kw)                      # separate positional arguments (two of them: the two-train form)
-        if ix is not None and TYPES and not EXACT and _tick() % 4 == 2:
-            return f(L, indices=np.array(self.idx(ix)), **kw)
+        if ix is not None and TYPES and not EXACT:
+            k = _tick() % 6
+            ii = self.idx(ix)
+            if k == 2:
+                return f(L, indices=np.array(ii), **kw)
+            if k == 4:
+                return f(L, indices=tuple(ii), **kw)
+            if k == 5 and ii == list(range(ii[0], ii[0] + len(ii))):
+                return f(L, indices=range(ii[0], ii[0] + len(ii)), **kw)
         return f(L, indices=self.idx(ix), **kw)
 
     @staticmethod
@@ -328,8 +344,13 @@ class Impl(object):
         return f
 
     def r22(self, x1, y1, m1, x2, y2, m2):
-        f = self.ps.DiscreteFunc(arr(x1), arr(y1), arr(m1))
-        g = self.ps.DiscreteFunc(arr(x2), arr(y2), arr(m2))
+        def xs(x):
+            xf = fl(x)
+            if TYPES and not EXACT and _tick() % 3 == 0 and all(v == int(v) for v in xf):
+                return np.array([int(v) for v in xf])      # integer-typed event times (values stay fractional)
+            return arr(x)
+        f = self.ps.DiscreteFunc(xs(x1), arr(y1), arr(m1))
+        g = self.ps.DiscreteFunc(xs(x2), arr(y2), arr(m2))
         f.add(g)
         return f
 
